@@ -1,4 +1,4 @@
-use crate::wal::block::{Block, Metadata};
+use crate::wal::block::{Block, Metadata, decode_metadata};
 use crate::wal::config::{
     DEFAULT_BLOCK_SIZE, FsyncSchedule, MAX_FILE_SIZE, PREFIX_META_SIZE, debug_print,
 };
@@ -21,7 +21,6 @@ use super::background::start_background_workers;
 use super::reader::Reader;
 use super::topic_clean::{CleanMarkerStore, TopicCleanTracker};
 use super::writer::Writer;
-use rkyv::Deserialize;
 
 #[derive(Clone, Copy, Debug)]
 pub enum ReadConsistency {
@@ -354,10 +353,9 @@ impl Walrus {
                 // read from our file; alignment is ensured by `AlignedVec`.
                 // SAFETY: `aligned` is built from bounded bytes inside the block,
                 // copied into `AlignedVec` ensuring alignment for rkyv.
-                let archived = unsafe { rkyv::archived_root::<Metadata>(&aligned[..]) };
-                let md: Metadata = match archived.deserialize(&mut rkyv::Infallible) {
-                    Ok(m) => m,
-                    Err(_) => {
+                let md: Metadata = match decode_metadata(&aligned[..]) {
+                    Some(m) => m,
+                    None => {
                         break;
                     }
                 };
